@@ -225,3 +225,16 @@ Fixpoint remotes (s : st) (l : list op) : list Z :=
   | [] => [remote (cur s)]
   | o :: l' => match step s o with Some (s', _) => remote (cur s) :: remotes s' l' | None => [] end
   end.
+
+(** [handle_coalesced]: a datagram whose first packet has a long header carries [n] further
+    bytes. The repaired code credits them like the first packet — only when the datagram came
+    from the current path's address ([coalesced_fixed]); before the repair they were added to the
+    current path's [total_recvd] whatever the source ([coalesced_unfixed]: the u64 counter grows,
+    the bytes really received from that address — the ghost [gr] — do not). *)
+Definition coalesced_fixed (s : st) (from n : Z) : st :=
+  if from =? remote (cur s) then credit s n else s.
+Definition coalesced_unfixed (s : st) (n : Z) : st :=
+  let a := aa (cur s) in
+  mk (server s) (migration s)
+     (set_aa (cur s) (AA.mk (AA.validated a) (sat_add (AA.recvd a) n) (AA.sent a) (AA.gr a) (AA.gs a)))
+     (prev s) (counter s) (timer s) (rx_packet s) (seen s) (resps s) (last_valid s).
